@@ -1,8 +1,10 @@
 #!/bin/bash
-# evaluate every delivered mutation that has not been evaluated yet
+# evaluate every delivered mutation that has not been evaluated yet:  tools/eval_all_seeded.sh [round]
 cd /verif
+R=${1:-}
 for i in $(seq -w 1 20); do for k in 1 2; do
-  if [ -f /tmp/mut_C$i/OUT/mut$k.diff ] && [ -f /tmp/mut_C$i/OUT/demo_$k.rs ] && [ ! -d /verif/seeded/C$i-$k ]; then
-    echo "=== C$i $k"; tools/eval_seeded.py C$i $k 2>&1 | tail -8
+  if [ -z "$R" ]; then D=/tmp/mut_C$i; S=/verif/seeded/C$i-$k; A=""; else D=/tmp/mut${R}_C$i; S=/verif/seeded/C$i-$k-r$R; A="--round $R"; fi
+  if [ -f $D/OUT/mut$k.diff ] && [ -f $D/OUT/demo_$k.rs ] && [ ! -d $S ]; then
+    echo "=== C$i $k $A"; tools/eval_seeded.py C$i $k $A 2>&1 | tail -8
   fi
 done; done
